@@ -167,6 +167,15 @@ def run_op_case(ctx, i):
         ctx.check(ctx.close(out1, exp1, TOL), "image.random", expected=exp1, got=out1, image=full, **W)
         out2 = _np(conv.convolve_image(image=aa.Array2D(values=garbage.copy(), mask=mask), blurring_image=aa.Array2D(values=garbage.copy(), mask=bmask)))
         ctx.check(np.array_equal(out1, out2), "garbage", why="values outside mask U blurring region changed the result", got=out2, expected=out1, **W)
+    if not nb:
+        # empty blurring region (1x1 kernel): convolve_image with the (empty) blurring image of the library's own blurring mask is
+        # still the true convolution, kernel[0, 0] * image
+        ok0, out0 = ctx.guarded("image.random", lambda: _np(conv.convolve_image(
+            image=aa.Array2D(values=full.copy(), mask=mask),
+            blurring_image=aa.Array2D(values=full.copy(), mask=mask.derive_mask.blurring_from(kernel_shape_native=k.shape)))))
+        if ok0:
+            ctx.check(ctx.close(out0, C_mm @ full[~m], TOL), "image.random", expected=C_mm @ full[~m], got=out0, image=full, which="empty_blurring_region", **W)
+            ctx.classes["convolve_image_with_empty_blurring_region"] += 1
     out3 = _np(conv.convolve_image_no_blurring(image=aa.Array2D(values=full.copy(), mask=mask)))
     ctx.check(ctx.close(out3, C_mm @ full[~m], TOL), "image.random", expected=C_mm @ full[~m], got=out3, image=full, which="no_blurring", **W)
     out4 = _np(conv.convolve_image_no_blurring(image=aa.Array2D(values=garbage.copy(), mask=mask)))
